@@ -251,7 +251,11 @@ func (w *writer) obj(n *node, depth int) {
 		if len(n.s) > 0 && n.s[len(n.s)-1]&15 == 0 {
 			w.f.oddable = true
 		}
-		w.str(n.s, depth)
+		if n.raw != nil { // a fixed spelling (space "hex")
+			w.toks = append(w.toks, tok{b: n.raw, depth: depth})
+		} else {
+			w.str(n.s, depth)
+		}
 	case kName:
 		w.f.name = true
 		w.name(n.s, depth)
